@@ -24,7 +24,7 @@ MODELLED = ("JSONWriter.__call__ / JSONLinesWriter.__call__ are modelled over a 
             "decodable); the array and lines layouts are parsed back by splitters certified in Coq, json.loads is run on "
             "the implementation side. OS file semantics beyond that (torn writes, permissions, concurrent writers), "
             "documents json.dump rejects midway, and datetime.today() (an input) are not modelled.")
-RULE = ("exhaustive: every call sequence of length <=3 (quick) / <=4 (thorough) over {start(uid), start(other uid), "
+RULE = ("exhaustive: every call sequence of length <=2 (quick) / <=3 (thorough), plus a sample one longer, over {start(uid), start(other uid), "
         "start(no uid), event, stop} x filename given / not given / '' x target file pre-existing or not (JSONWriter), "
         "and over {start(uid), start(no uid), event, stop} x filename x pre-existing content empty / newline-terminated / "
         "unterminated (JSONLinesWriter); random: 1-3 runs of random JSON-compatible documents (nested, unicode, embedded "
@@ -41,39 +41,42 @@ def _h(s):
 # ------------------------------------------------------------------------------ cases
 
 def _alpha_json():
-    return [["start", {"uid": "ab-cd-1", "plan": "count"}], ["start", {"uid": "zz", "n": 1}], ["start", {"scan_id": 3}],
-            ["event", {"data": {"x": 1.5, "s": "a\nb,\n]"}, "seq_num": 1}], ["stop", {"exit_status": "success", "uid": "q-1"}]]
+    return [["start", {"uid": "ab-c"}], ["start", {"uid": "zz", "n": 1}], ["start", {"i": 3}],
+            ["event", {"s": "a\n,\n]"}], ["stop", {"uid": "q-1"}]]
 
 
 def _alpha_lines():
-    return [["start", {"uid": "ab-cd-1", "plan": "count"}], ["start", {"scan_id": 3}],
-            ["descriptor", {"data_keys": {}, "name": "primary\n"}], ["stop", {"exit_status": "success"}]]
+    return [["start", {"uid": "ab-c"}], ["start", {"i": 3}], ["descriptor", {"n": "p\n"}], ["stop", {}]]
 
 
 def cases(rng, tier):
     out = []
-    maxlen = 3 if tier == "quick" else 4
+    full = 2 if tier == "quick" else 3            # exhaustive up to this length, sampled one longer
+    nsample = 120 if tier == "quick" else 700
+    pre_json = [["ab.json", _h("[\nold")], ["out.json", _h("junk\n")], ["o.txt", _h("keep")]]
+    pres = [[], [["ab.jsonl", _h("")], ["log.jsonl", _h("")]],
+            [["ab.jsonl", _h('{"o": 1}\n')], ["log.jsonl", _h('{"o": 1}\n[2]\n')], [TODAY + ".jsonl", _h("[1]\n")]],
+            [["ab.jsonl", _h('{"u": 1}')], ["log.jsonl", _h("x")], [TODAY + ".jsonl", _h("y")], ["o.txt", _h("keep")]]]
     # JSONWriter, small scope
-    for n in range(0, maxlen + 1):
+    for n in range(0, full + 1):
         for seq in itertools.product(_alpha_json(), repeat=n):
             for fn in (None, "out.json", ""):
-                if fn == "" and n > 2:
-                    continue
-                for pre in ([], [["ab.json", _h("[\nold")], ["out.json", _h("junk\n")], ["other.txt", _h("keep me")]]):
+                for pre in ([], pre_json):
                     out.append({"writer": "json", "filename": fn, "pre": pre, "calls": list(seq)})
+    for _ in range(nsample):
+        seq = [rng.choice(_alpha_json()) for _ in range(full + 1)]
+        out.append({"writer": "json", "filename": rng.choice([None, None, "out.json", ""]), "pre": rng.choice([[], pre_json]), "calls": seq})
     # JSONLinesWriter, small scope
-    pres = [[], [["ab.jsonl", _h("")], ["log.jsonl", _h("")]],
-            [["ab.jsonl", _h('{"old": 1}\n')], ["log.jsonl", _h('{"old": 1}\n{"older": 2}\n')], [TODAY + ".jsonl", _h("[1]\n")]],
-            [["ab.jsonl", _h('{"unterminated": 1}')], ["log.jsonl", _h("x")], [TODAY + ".jsonl", _h("y")], ["other.txt", _h("keep")]]]
-    for n in range(0, maxlen + 1):
+    for n in range(0, full + 1):
         for seq in itertools.product(_alpha_lines(), repeat=n):
             for fn in (None, "log.jsonl", ""):
                 for pre in pres:
-                    if n == maxlen and pre is pres[1]:
-                        continue
                     out.append({"writer": "jsonl", "filename": fn, "pre": pre, "calls": list(seq)})
+    for _ in range(nsample):
+        seq = [rng.choice(_alpha_lines()) for _ in range(full + 1)]
+        out.append({"writer": "jsonl", "filename": rng.choice([None, None, "log.jsonl", ""]), "pre": rng.choice(pres), "calls": seq})
     # random
-    nrand = 150 if tier == "quick" else 4000
+    nrand = 60 if tier == "quick" else 1500
     uids = ["ab-cd", "x", "né-1", "0a1b2c3d-0000-4000-8000-000000000000", "-lead", "no_dash", "sp ace-1", "日本-2", "a.b-c"]
     names = ["descriptor", "event", "event_page", "datum", "resource", "stream_datum", "bulk_events", "weird name"]
     for _ in range(nrand):
@@ -161,6 +164,32 @@ def _kind(name):
     return {"start": "KStart", "stop": "KStop"}.get(name, "KOther")
 
 
+def _pieces(content, recs, pres):
+    """content as a list of pieces (literal bytes / record i / pre-existing content i) that
+    concatenates to it exactly (asserted here; the Coq side flattens the pieces again)"""
+    cands = sorted([(r, "PRec %d%%nat" % i) for i, r in enumerate(recs) if len(r) > 3] +
+                   [(c, "PPre %d%%nat" % i) for i, c in enumerate(pres) if len(c) > 3], key=lambda t: -len(t[0]))
+    out, lit, pos, check = [], bytearray(), 0, bytearray()
+    while pos < len(content):
+        for b, ref in cands:
+            if content.startswith(b, pos):
+                if lit:
+                    out.append("PLit %s" % coq_bytes(lit))
+                    lit = bytearray()
+                out.append(ref)
+                check += b
+                pos += len(b)
+                break
+        else:
+            lit.append(content[pos])
+            check.append(content[pos])
+            pos += 1
+    if lit:
+        out.append("PLit %s" % coq_bytes(lit))
+    assert bytes(check) == content
+    return coq_list(out)
+
+
 def coq_term(case, obs):
     es = []
     for o in obs["outcomes"]:
@@ -177,7 +206,9 @@ def coq_term(case, obs):
         uid = spec.get("uid") if isinstance(spec, dict) else None
         calls.append("(mk_call %s %s %s)" % (_kind(name), _os(uid if isinstance(uid, str) else None), coq_bytes(bytes.fromhex(e))))
     pre = coq_list(case["pre"], lambda p: "(%s, %s)" % (_s(p[0]), coq_bytes(bytes.fromhex(p[1]))))
-    files = coq_list(obs["files"], lambda p: "(%s, %s)" % (_s(p[0]), coq_bytes(bytes.fromhex(p[1]))))
+    recs = [bytes.fromhex(e) for e in obs["encs"]]
+    pres = [bytes.fromhex(p[1]) for p in case["pre"]]
+    files = coq_list(obs["files"], lambda p: "(%s, %s)" % (_s(p[0]), _pieces(bytes.fromhex(p[1]), recs, pres)))
     args = "%s %s %s %s %s %s" % (_os(case["filename"]), pre, coq_list(calls), _os(obs["filename"]), files, coq_list(es))
     if case["writer"] == "json":
         return "(jw_obs_beq %s)%%N" % args
